@@ -133,10 +133,6 @@ def scalar_patch(ctx, k, kind):
     if general:
         mc = G.quad_mesh(rng, style="distorted") if kind == "quad" else G.hex_mesh(rng, style=str(rng.choice(["extruded", "jiggled"])))
         ctx.reached("non-affine-degree-one")
-    elif name.startswith("ElementQuadP(") and deg >= 3:
-        # ElementQuadP(p>=3) is not conforming on cyclically shifted cells: that mechanism is C03's recorded finding and
-        # is not re-reported here; the patch test uses cells in the constructor's own local order
-        mc = G.quad_mesh(rng, style=str(rng.choice(["tensor", "sheared"])), renum=False)
     else:
         mc = affine_mesh(ctx, rng, kind, k)
     mesh = mc.mesh
